@@ -9,6 +9,7 @@
 //	    nm req <s> <hexname> <0|1> newVariable(name, pkgLevel) on s     -> <hex name>
 //	    nm gchild <p> <hexname>    the same for an instantiation of a generic function -> <id> <hex funcRef>
 //	    nm ptr <s> <v> <hexname> <0|1>  varPtrName of variable #v on s   -> <hex name>
+//	    nm obj <s> <o> <hexname> <0|1>  objectName of object #o on s (1 = named type declared in a function) -> <hex name>
 //	    nm cnt <s> <hexname>       allVars[name] of scope s             -> <n>
 //	    nm locals <s>              localVars of scope s                 -> comma list of hex
 //	    nm kw                      reservedKeywords, sorted             -> comma list
@@ -141,6 +142,20 @@ func answer(w []string) string {
 				return "bad-op"
 			}
 			r, p := scopes.VarPtrName(s, vid, string(name), w[5] == "1")
+			if p != "" {
+				return "panic"
+			}
+			return hexs([]byte(r))
+		case "obj":
+			if len(w) != 6 {
+				return "bad-op"
+			}
+			oid, err := strconv.Atoi(w[3])
+			name, ok := unhex(w[4])
+			if err != nil || !ok {
+				return "bad-op"
+			}
+			r, p := scopes.ObjectName(s, oid, string(name), w[5] == "1")
 			if p != "" {
 				return "panic"
 			}
